@@ -259,7 +259,7 @@ OPTION_VECTORS = [
     ["--layer", "wm.L1", "--layer", "!L1"], ["--layer", "wm.L2", "--layer", "!wm"], ["--layer", "wm.L1", "--layer", "wm.L2", "--layer", "!L2"],
     ["--layer", "wm.Store", "--layer", "!Store"], ["--layer", "^wm.L1$"], ["--layer", "wm.L1$", "--layer", "!^wm"],
     ["--all", "--only-level", "2"], ["--only-level", "2", "--all"], ["-a", "0", "--only-level", "2"],
-    ["--at-level=-1", "--only-level", "3"], ["--only-level", "0"],
+    ["--at-level=-1", "--only-level", "3"], ["--only-level", "0"], ["--at-level=0"], ["--at-level=-2"], ["-a", "0", "-u"],
     ["-t", "alpha", "-t", ""], ["-t", ""], ["-t", "", "-t", "!beta"], ["-m", "orders", "-m", ""], ["-t", "a", "-t", "a"],
     ["-t", "!x", "-t", ""], ["-m", "", "-m", "!stock"], ["-t", "alpha", "-m", "", "-t", "^$"],
 ]
@@ -407,6 +407,15 @@ def run_layers(ctx):
         olv = [int(args[i + 1]) for i, a in enumerate(args) if a == "--only-level"]
         if olv and o.only_level != olv[-1]:
             bad_glue = "options %r leave only_level = %r: --only-level %d is not in force" % (args, o.only_level, olv[-1])
+        # the level given with -a / --at-level is the level in force (0 and below: every level); 1 when none is given
+        alv = [int(args[i + 1]) for i, a in enumerate(args) if a == "-a"] + \
+              [int(a.split("=", 1)[1]) for a in args if a.startswith("--at-level=")]
+        if "--all" not in args and not bad_glue:
+            want_al = alv[-1] if alv else 1
+            same = (o.at_level <= 0) if want_al <= 0 else (o.at_level == want_al)
+            if not same:
+                bad_glue = "options %r leave at_level = %r: level %d %s is not in force" % (
+                    args, o.at_level, want_al, "(every level)" if want_al <= 0 else "")
         if bad_glue:
             ctx.violation(bad_glue, case, signature="option-glue")
             continue
